@@ -163,6 +163,8 @@ class QFunction(QToken):
         args_str = string[arg_start + 1 : arg_end]
         while args_str:
             (arg_t, arg), args_str = _parse_token(args_str, namespace)
+            if not arg_t:
+                raise QueryParseException("Function expected an argument, got nothing")
             args.append(arg_t.parse(arg, namespace))
             # Arguments are separated by exactly one comma
             args_str = args_str.strip()
@@ -243,7 +245,7 @@ class QDict(QToken):
             key = QString.parse(key_str, {}).value
             entries_str = entries_str.strip()
             # Remove :
-            if entries_str[0] != ":":
+            if not entries_str or entries_str[0] != ":":
                 raise QueryParseException("Key in dict is not followed by a :")
             entries_str = entries_str[1:]
             # parse val
@@ -350,6 +352,8 @@ def _parse_token(string: str, namespace: dict) -> Tuple[Tuple[Any, str], str]:
     if len(string) == 0:
         return (None, ""), string
     string = string.strip()
+    if len(string) == 0:
+        return (None, ""), string
     token = None
     t = None  # Declare so we can return it
     for t in qtypes:
@@ -385,6 +389,8 @@ def parse(line, namespace):
     if var_t is not QVariable:
         raise QueryParseException("Cannot assign to a non-variable")
     (val_t, val), var_str = _parse_token(val_str, namespace)
+    if not val_t:
+        raise QueryParseException("Nothing to assign")
     if var_str:  # Didn't consume whole val string
         raise QueryParseException("Invalid syntax for value to assign")
     # Parse token
